@@ -96,7 +96,7 @@ TYPED_SLICES = [SLI8, SLU16, SLI32, SLISZ, SLUSZ, SLI64, SLU64, SLF32, SLF64, SL
 # UTF-16 views are unvalidated: an unpaired surrogate and a leading U+FEFF are ordinary code units and must survive
 # UTF-8 string slice: the JS side measures the UTF-8 length itself (lone surrogates become U+FFFD, 3 bytes)
 ST8 = FT("st8", "DiplomatStrSlice<'a>", "[u32; 2]", "slice", [U8Str(""), U8Str("a\u00e9\u20ac\U0001d11e"), U8Str("a\ud800"), U8Str("\ud800\u00e9"), U8Str("\udc00z")])
-S16 = FT("s16", "DiplomatStr16Slice<'a>", "[u32; 2]", "slice", ["", "aé€", "\ufeffab", "a\ud800", "\udc00\ud83d"])
+S16 = FT("s16", "DiplomatStr16Slice<'a>", "[u32; 2]", "slice", ["", "aé€", "\ufeffab", "a\ud800", "\udc00\ud83d", "x\U0001f600y\U00010000"])
 IN1 = FT("in1", "In1", "In1", "struct", None, inner=[("x", U8)])
 IN2 = FT("in2", "In2", "In2", "struct", None, inner=[("a", U8), ("b", U32)])
 IN3 = FT("in3", "In3", "In3", "struct", None, inner=[("p", U64), ("q", U8), ("r", U16)])
@@ -115,14 +115,21 @@ OIN2 = FT("oin2", "DiplomatOption<In2>", "DiplomatOption<In2>", "option", [None,
 ALPHABET = [U8, I16, U32, U64, F32, F64, BOOL, CHAR, USIZE, EN, OP, OOP, SL8, S16, ST8, IN1, IN2, IN3, OU8, OU16, OU64, OEN, OIN2, OBOOL]
 ALPHA12 = [U8, I16, U32, U64, F64, BOOL, EN, OP, SL8, IN2, OU16, OIN2]
 ALPHA6 = [U8, I16, U32, U64, IN2, OU8]
-NESTED = {"In1": IN1, "In2": IN2, "In3": IN3}
+# #[diplomat::out] structs nested in each other down to one scalar: a returned aggregate that holds a single scalar, however deep,
+# travels as that scalar
+OIN1 = FT("oin1", "OIn1", "OIn1", "struct", None, inner=[("x", U32)])
+OIN1.vals = [(f.vals[1],) for _, f in OIN1.inner] + [(f.vals[-1],) for _, f in OIN1.inner]
+OIN1B = FT("oin1b", "OIn1b", "OIn1b", "struct", None, inner=[("y", OIN1)])
+OIN1B.vals = [(OIN1.vals[0],), (OIN1.vals[1],)]
+NESTED = {"In1": IN1, "In2": IN2, "In3": IN3, "OIn1": OIN1, "OIn1b": OIN1B}
 
 
 class StructDef:
-    def __init__(self, name, fields):
+    def __init__(self, name, fields, out=False):
         self.name = name
         self.fields = fields  # [(fname, FT)]
         self.lifetime = any(f.lifetime for _, f in fields)
+        self.out = out        # #[diplomat::out]: only ever returned
 
     def values(self):
         """each field's alphabet with the others at their second value + all-last"""
@@ -151,6 +158,9 @@ def universe(tier):
         for combo in itertools.product(ALPHABET, repeat=n):
             out.append(StructDef("S%d" % k, [("f%d" % i, t) for i, t in enumerate(combo)]))
             k += 1
+    for combo in ((OIN1,), (OIN1B,), (U32,), (OIN1, U8), (U8, OIN1B), (IN1,)):
+        out.append(StructDef("S%d" % k, [("f%d" % i, x) for i, x in enumerate(combo)], out=True))
+        k += 1
     for t in TYPED_SLICES:
         for combo in ((t,), (U8, t), (t, U8), (U64, t), (t, t)):
             out.append(StructDef("S%d" % k, [("f%d" % i, x) for i, x in enumerate(combo)]))
@@ -175,10 +185,11 @@ def bridge_source(structs, per_owner=60):
     L = ["#[diplomat::bridge]\nmod ffi {",
          "    #[diplomat::opaque]\n    pub struct Op(pub u32);",
          "    pub enum En { A = 0, B = 5, C = -6 }",
-         "    pub struct In1 { pub x: u8 }", "    pub struct In2 { pub a: u8, pub b: u32 }", "    pub struct In3 { pub p: u64, pub q: u8, pub r: u16 }"]
+         "    pub struct In1 { pub x: u8 }", "    pub struct In2 { pub a: u8, pub b: u32 }", "    pub struct In3 { pub p: u64, pub q: u8, pub r: u16 }",
+         "    #[diplomat::out]\n    pub struct OIn1 { pub x: u32 }", "    #[diplomat::out]\n    pub struct OIn1b { pub y: OIn1 }"]
     for s in structs:
         lt = "<'a>" if s.lifetime else ""
-        L.append("    pub struct %s%s { %s }" % (s.name, lt, ", ".join("pub %s: %s" % (n, f.bridge) for n, f in s.fields)))
+        L.append("    %spub struct %s%s { %s }" % ("#[diplomat::out]\n    " if s.out else "", s.name, lt, ", ".join("pub %s: %s" % (n, f.bridge) for n, f in s.fields)))
     owners = []
     for k in range(0, len(structs), per_owner):
         o = "H%d" % (k // per_owner)
@@ -187,7 +198,8 @@ def bridge_source(structs, per_owner=60):
         L.append("    impl %s {" % o)
         for s in structs[k:k + per_owner]:
             s.owner = o
-            L.append("        pub fn take_%s(x: %s) { unimplemented!() }" % (s.name.lower(), s.name))
+            if not s.out:
+                L.append("        pub fn take_%s(x: %s) { unimplemented!() }" % (s.name.lower(), s.name))
             if s.lifetime:
                 L.append("        pub fn give_%s<'a>(x: &'a Op) -> %s<'a> { unimplemented!() }" % (s.name.lower(), s.name))
             else:
@@ -206,12 +218,13 @@ def oracle_source(structs):
     L = ["#![allow(dead_code, non_snake_case)]", "use diplomat_runtime::{DiplomatOption, DiplomatResult};", "use core::mem::{size_of, align_of, offset_of};",
          "#[repr(C)] #[derive(Clone, Copy)] pub enum En { A = 0, B = 5, C = -6 }",
          "#[repr(C)] pub struct In1 { pub x: u8 }", "#[repr(C)] pub struct In2 { pub a: u8, pub b: u32 }", "#[repr(C)] pub struct In3 { pub p: u64, pub q: u8, pub r: u16 }",
+         "#[repr(C)] pub struct OIn1 { pub x: u32 }", "#[repr(C)] pub struct OIn1b { pub y: OIn1 }",
          "#[inline(never)] fn st<T>(name: &str, offs: &[usize]) { println!(\"\\\"{}\\\": {{\\\"size\\\": {}, \\\"align\\\": {}, \\\"offsets\\\": {:?}}},\", name, size_of::<T>(), align_of::<T>(), offs); }",
          "#[inline(never)] fn fl<T>(name: &str, flag: usize) { println!(\"\\\"{}\\\": {{\\\"size\\\": {}, \\\"align\\\": {}, \\\"flag\\\": {}}},\", name, size_of::<T>(), align_of::<T>(), flag); }"]
     for s in structs:
         L.append("#[repr(C)] pub struct %s { %s }" % (s.name, ", ".join("pub %s: %s" % (n, f.oracle) for n, f in s.fields)))
     calls = []
-    for t in ("In1", "In2", "In3"):
+    for t in ("In1", "In2", "In3", "OIn1", "OIn1b"):
         fs = NESTED[t].inner
         calls.append('st::<%s>("%s", &[%s]);' % (t, t, ", ".join("offset_of!(%s, %s)" % (t, n) for n, _ in fs)))
     for o in (OU8, OU16, OU64, OEN, OIN2, OBOOL):
